@@ -13,7 +13,8 @@
 //   - the expression that keys the custom-parameter lookups;
 //   - Tally: order of the early-return checks;
 //   - checkProposalMsgs (msg_server.go): which expression is compared between consecutive messages;
-//   - GetCustomMsgQuorum / GetCustomMsgVotingPeriod: stored field if an entry exists, default only if absent.
+//   - GetCustomMsgQuorum / GetCustomMsgVotingPeriod: stored field if an entry exists, default only if absent;
+//   - EndBlocker's ErrEncoding branches: is the queue entry removed by the key the walk stands on.
 //
 // Fails loudly when a shape it expects is gone.
 package main
@@ -573,6 +574,43 @@ func main() {
 	facts["sh_quorum_default_only_absent"] = b(onlyAbsent("GetCustomMsgQuorum", "Quorum", "defaultQuorum"))
 	facts["sh_period_default_only_absent"] = b(onlyAbsent("GetCustomMsgVotingPeriod", "VotingPeriod", "defaultVotingPeriod"))
 
+	// ---------------------------------------------------------------- EndBlocker, the ErrEncoding branches
+	badBranch := func(queue string) bool {
+		var lit *ast.FuncLit
+		ast.Inspect(eb, func(x ast.Node) bool {
+			if c, ok := x.(*ast.CallExpr); ok && str(c.Fun) == "keeper."+queue+".Walk" && len(c.Args) == 3 {
+				if fl, ok := c.Args[2].(*ast.FuncLit); ok {
+					lit = fl
+				}
+			}
+			return true
+		})
+		if lit == nil || len(lit.Type.Params.List) == 0 || len(lit.Type.Params.List[0].Names) == 0 {
+			die("EndBlocker: %s.Walk callback not found", queue)
+		}
+		keyName := lit.Type.Params.List[0].Names[0].Name
+		var branch *ast.IfStmt
+		ast.Inspect(lit.Body, func(x ast.Node) bool {
+			if f, ok := x.(*ast.IfStmt); ok && branch == nil && str(f.Cond) == "errors.Is(err, collections.ErrEncoding)" {
+				branch = f
+			}
+			return true
+		})
+		if branch == nil {
+			die("EndBlocker: no ErrEncoding branch in the %s walk", queue)
+		}
+		byKey := false
+		ast.Inspect(branch.Body, func(x ast.Node) bool {
+			if c, ok := x.(*ast.CallExpr); ok && str(c.Fun) == "keeper."+queue+".Remove" && len(c.Args) == 2 && str(c.Args[1]) == keyName {
+				byKey = true
+			}
+			return true
+		})
+		return byKey
+	}
+	facts["sh_bad_inactive_dequeued"] = b(badBranch("InactiveProposalsQueue"))
+	facts["sh_bad_active_dequeued_by_key"] = b(badBranch("ActiveProposalsQueue"))
+
 	// ---------------------------------------------------------------- output
 	fields := []string{"sh_eb_order", "sh_payout_guard", "sh_dequeue_key_voting_end", "sh_cache_before_loop", "sh_cache_in_loop",
 		"sh_exec_on_cache", "sh_err_plain_assign", "sh_break_on_err", "sh_write_in_loop", "sh_write_in_ok_branch", "sh_write_elsewhere",
@@ -580,7 +618,8 @@ func main() {
 		"sh_dep_order", "sh_dep_ok_returns_before_record",
 		"sh_act_inactive_remove_unconditional", "sh_act_inactive_key_deposit_end", "sh_act_active_key_voting_end",
 		"sh_egf_key", "sh_type_key", "sh_tally_checks", "sh_mixed_compare", "sh_mixed_fold",
-		"sh_quorum_default_only_absent", "sh_period_default_only_absent"}
+		"sh_quorum_default_only_absent", "sh_period_default_only_absent",
+		"sh_bad_inactive_dequeued", "sh_bad_active_dequeued_by_key"}
 	var sb strings.Builder
 	sb.WriteString("(* generated by harness/gen_c15 from x/gov/abci.go and x/gov/keeper/{deposit,proposal,tally}.go; do not edit *)\n")
 	sb.WriteString("From Coq Require Import ZArith List Bool.\nFrom FxV Require Import model.M_GovShape.\nImport ListNotations.\nOpen Scope Z_scope.\n\n")
